@@ -716,6 +716,7 @@ func registerSvcKinds(c *core.Ctx) {
 	c.Register(&core.Kind{Name: "svc.sequence", Eval: evalSvcSequence})
 	registerSvcWireKinds(c)
 	registerSvcE2EKinds(c)
+	registerSvcMoreKinds(c) // svcinfo_more.go
 }
 
 // ---- svc.wire: the devmod messages as the device's sending loop emits them at an MTU, replayed to the real owner ----
@@ -1610,12 +1611,13 @@ func evalSvcE2E(p core.Params) (string, string) {
 	w.begin(run)
 	ctx, cancel := context.WithTimeout(context.Background(), 14*time.Second)
 	done := make(chan error, 1)
+	tr := w.transport()
+	if sc.httpDefault {
+		tr.MaxContentLength = 0
+	}
+	meter := newSizeMeter(tr, sc.ownMTU, sc.devMTU) // svcinfo_more.go: every 68 / 69 against the announced sizes
 	go func() {
-		tr := w.transport()
-		if sc.httpDefault {
-			tr.MaxContentLength = 0
-		}
-		_, err := fdo.TO2(ctx, tr, nil, cfg)
+		_, err := fdo.TO2(ctx, meter, nil, cfg)
 		done <- err
 	}()
 	select {
@@ -1630,6 +1632,7 @@ func evalSvcE2E(p core.Params) (string, string) {
 	}
 	checkE2E(obs)
 	consolidateProbe(obs)
+	meter.report(obs, p["avail"] == "1")
 	var sb strings.Builder
 	switch {
 	case obs.hang:
@@ -1924,6 +1927,7 @@ func runC16(c *core.Ctx) {
 	runC16Sequence(c)
 	runC16Wire(c)
 	runC16E2E(c)
+	runC16More(c) // svcinfo_more.go
 }
 
 // fixedNames: n distinct names of l bytes (the index in base 62, padded on the left).
